@@ -77,7 +77,12 @@ def inject(case):
         return spec, "ok", "none"
     if kind == "double_call":
         B.insert(0, _m("x9"))
-        if v % 4 == 0:
+        if v % 4 == 0 and v >= 4:
+            # chains of different length: directly and through an intermediate method
+            B.insert(1, _m("d0", stmts=[_call("x9")]))
+            B.append(_t("tx", [_call("d0"), _alts(v % 3, [[_call("x9")], []])]))
+            label += ":different_depth"
+        elif v % 4 == 0:
             B.append(_t("tx", [_call("x9"), _call("x9", en=True)]))
             label += ":same_path"
         elif v % 4 == 1:
